@@ -1,5 +1,5 @@
 """C16 — a debugger session always makes progress."""
-from ..facts import callee_of, short, sp_file_line, expr_str, op_local, place_is_local
+from ..facts import callee_of, short, sp_file_line, expr_str, expr_walk, op_local, place_is_local
 from .. import kit, dbg
 
 EXPLANATION = (
@@ -34,7 +34,7 @@ def run(ctx):
     pz = dbg.pauser(ctx, disp)
     rl = dbg.run_loop(ctx, pz)
 
-    ctx.rule("C16.R1", "whoever makes the run loop skip execution must put the debugger into WaitForAction", floor=2)
+    ctx.rule("C16.R1", "whoever makes the run loop skip execution must put the debugger into WaitForAction", floor=4)
     # state dispatch = the switch on discriminant of Status in the pausing function
     sts = list(kit.discr_switches(pz, STATUS))
     ctx.need(sts, "match on Status in the pausing function")
@@ -104,6 +104,53 @@ def run(ctx):
     ctx.oblig(ok, {"interrupt check arguments": e}, "decoded from mem[pc]")
     if not ok:
         ctx.violation("halt-check-arg", sp_file_line(tcall.get("sp")), "the interrupt check is not given the instruction at the current PC: %s" % e)
+    # (c) the run loop's side: after a Proceed, the only conditions that skip execution are those two, tested the same way
+    act = list(kit.discr_switches(rl, "lace::debugger::Action"))
+    ctx.need(act, "match on Action in the run loop")
+    ab, aplace, atargets, aoth = act[0]
+    avidx = {v["name"]: v["idx"] for v in prog.adt("lace::debugger::Action")["variants"]}
+    ctx.need(avidx.get("Proceed") in atargets, "Proceed arm in the run loop")
+    pt = atargets[avidx["Proceed"]]
+    exs = [b for b, t, c in rl.calls() if c == EXEC]
+    ctx.need(len(exs) == 1, "one execute site in the run loop")
+    heads = {h for h, (body, latches) in kit.loops(rl).items() if exs[0] in body}
+    def promoted_variants(e):
+        out = []
+        for x in expr_walk(e):
+            if x[0] == "uneval" and len(x) > 2:
+                pf = prog.fns.get("%s::promoted[%s]" % (x[1], x[2]))
+                if pf is not None:
+                    out += [s_["r"].get("variant") for b_, i_, s_ in pf.assigns() if s_["r"]["k"] == "agg" and s_["r"].get("variant")]
+            if x[0] == "agg" and x[1][0] == "adt":
+                out.append(x[1][2])
+        return out
+    kinds = []
+    for bb in sorted(kit.dominated_region(rl, pt)):
+        t = rl.term(bb)
+        if t["k"] != "switch":
+            continue
+        reach = [exs[0] in rl.reachable(x, avoid=heads) for x in rl.succ_map()[bb]]
+        if all(reach) or not any(reach):
+            continue
+        e = rl.expr(t["a"], 8)
+        calls_ = [str(x[1]) for x in expr_walk(e) if x[0] == "call"]
+        pv = promoted_variants(e)
+        kind = None
+        if any(c == "lace::runtime::RunState::check_pc_bounds" for c in calls_) and "Equal" in pv and len(calls_) == 2:
+            kind = "bounds"
+        elif any("SignificantInstr" in c and c.endswith("try_from") for c in calls_) and "Halt" in pv and "pc" in expr_str(e, 2000) and "mem" in expr_str(e, 2000):
+            kind = "halt"
+        ctx.instance(1)
+        ctx.oblig(kind is not None, {"run loop skips execution when": kind or expr_str(e, 120)}, "one of the two conditions the pausing code answers with WaitForAction")
+        if kind is None:
+            ctx.violation("run-loop-skip", sp_file_line(t.get("sp")),
+                          "after a Proceed the run loop skips execution on `%s`; the pausing code only promises WaitForAction for check_pc_bounds() != Equal "
+                          "and for HALT at the PC, so under continue/step this condition spins without reading a command" % expr_str(e, 160))
+        kinds.append(kind)
+    ok = sorted(k for k in kinds if k) == ["bounds", "halt"]
+    ctx.oblig(ok, {"skip conditions": kinds}, "exactly bounds + halt")
+    if not ok and all(kinds):
+        ctx.violation("run-loop-skip-set", rl.file_line(), "the run loop's skip conditions after a Proceed are %s (expected one bounds test and one HALT test)" % kinds)
     ctx.finish_rule()
 
     ctx.rule("C16.R2", "every cycle executes an instruction or consumes a command", floor=3)
